@@ -367,8 +367,10 @@ class MetaModel:
         # make sure the basic kinds exist
         holder_own += [("i0", INT), ("s0", STR), ("oi0", ("opt", INT)), ("os0", ("opt", STR)),
                        ("li0", ("list", INT)), ("f0", FLOAT), ("b0", BOOL),
-                       ("ob0", ("opt", BOOL))]
+                       ("ob0", ("opt", BOOL)), ("weight", ("opt", INT))]
         self.add("Holder", None, holder_own)
+        # generated verification functions: name -> (params [(name, type)], body spec, kind)
+        self.functions: Dict[str, Tuple[List[Tuple[str, Any]], Any, str]] = {}
 
     def add(self, name, base, own):
         stacked = list(self.classes[base]["props"]) if base else []
@@ -409,6 +411,10 @@ class MetaModel:
                 out.append("\n    @non_mutating\n    def compute(self, a: int) -> int:\n"
                            "        \"\"\"Compute.\"\"\"\n        return 4\n")
             out.append("\n\n")
+        for fname, (params, body, _kind) in self.functions.items():
+            sig = ", ".join(f"{n}: {T_src(t)}" for n, t in params)
+            out.append(f"@verification\ndef {fname}({sig}) -> bool:\n"
+                       f"    \"\"\"Check {fname}.\"\"\"\n    return {src(body)}\n\n\n")
         out.append('__version__ = "dummy"\n__xml_namespace__ = "https://dummy.com"\n')
         return "".join(out)
 
@@ -704,6 +710,55 @@ class ExprGen:
         ctx = {"vars": [(SELF, ("class", self.cls))], "narrowed": set()}
         return self.gen_bool(ctx, self.rng.choice([1, 2, 2, 3]))
 
+    def function_body(self, params):
+        ctx = {"vars": [(("name", n), t) for n, t in params], "narrowed": set()}
+        return self.gen_bool(ctx, self.rng.choice([1, 2, 2, 3]))
+
+    def random_params(self):
+        rng = self.rng
+        item, items = ("class", "Item"), ("list", ("class", "Item"))
+        pool = [("item", item), ("items", items), ("opt_item", ("opt", item)),
+                ("other", item), ("n", INT), ("text", STR), ("opt_n", ("opt", INT)),
+                ("opt_text", ("opt", STR)), ("numbers", ("list", INT)),
+                ("texts", ("list", STR)), ("holder", ("class", "Holder"))]
+        k = rng.choice([1, 2, 2, 3, 3])
+        ps = rng.sample(pool, k)
+        if rng.random() < 0.5:
+            ps = [p for p in ps if p[0] not in ("item", "items")] + [("item", item), ("items", items)]
+        return ps
+
+    def narrow_then_shadow(self, vars_):
+        """``v.m is None or all(v.m > 0 for v in <list of objects with member m>)``: a member of
+        the outer name ``v`` is narrowed and ``v`` is re-bound inside the narrowed scope.
+        Must be rejected: "has been already defined before"."""
+        rng = self.rng
+        ctx = {"vars": vars_, "narrowed": set()}
+        cands = []
+        lists = [(e, t) for e, t in self.paths(ctx) if t[0] == "list" and t[1][0] == "class"]
+        for v, vt in vars_:
+            if v[0] != "name" or vt[0] != "class":
+                continue
+            for m, mt in self.mm.classes[vt[1]]["props"]:
+                if mt[0] != "opt" or mt[1] not in (INT, STR):
+                    continue
+                for le, lt in lists:
+                    elem_props = dict(self.mm.classes[lt[1][1]]["props"])
+                    if elem_props.get(m) == mt:
+                        cands.append((v, m, mt, le))
+        if not cands:
+            return None
+        v, m, mt, le = rng.choice(cands)
+        mem = ("member", v, m)
+        use = (("cmp", rng.choice([">", "<", ">="]), mem, ("const", 0)) if mt[1] == INT
+               else ("cmp", ">", ("call", "len", [mem]), ("const", 0)))
+        q = (rng.choice(["all", "any"]), v[1], ("each", le), use)
+        form = rng.random()
+        if form < 0.4:
+            return ("or", [("isnone", mem), q])
+        if form < 0.7:
+            return ("and", [("isnotnone", mem), q])
+        return ("impl", ("isnotnone", mem), q)
+
 
 # ----------------------------------------------------------------------------- mutations
 def subterms(e, path=()):
@@ -759,11 +814,29 @@ def replace_at(e, path, new):
     return tuple(lst)
 
 
-def mutate(rng, mm: MetaModel, cls: str, e):
+def rename(e, old: str, new: str):
+    """Rename the free occurrences of the name ``old`` (spec level)."""
+    if isinstance(e, tuple):
+        if e and e[0] == "name":
+            return ("name", new) if e[1] == old else e
+        if e and e[0] in ("any", "all") and e[1] == old:
+            g = e[2]
+            g2 = tuple([g[0]] + [rename(x, old, new) for x in g[1:]])
+            return (e[0], e[1], g2, e[3])
+        if e and e[0] in ("const", "raw"):
+            return e
+        return tuple(rename(x, old, new) for x in e)
+    if isinstance(e, list):
+        return [rename(x, old, new) for x in e]
+    return e
+
+
+def mutate(rng, mm: MetaModel, cls: str, e, outer_names=("self",)):
     """One typed mutation; returns (kind, mutant) or None."""
     subs_ = list(subterms(e))
     kinds = ["drop_guard", "swap_operands", "wrong_branch", "wrong_member", "swap_cmp",
-             "len_arg", "shadow", "flip_none", "call_arg", "mirror", "drop_guard", "mirror"]
+             "len_arg", "shadow", "flip_none", "call_arg", "mirror", "drop_guard", "mirror",
+             "shadow"]
     rng.shuffle(kinds)
     all_props = sorted({p for d in mm.classes.values() for p, _ in d["props"]})
     for kind in kinds:
@@ -842,10 +915,12 @@ def mutate(rng, mm: MetaModel, cls: str, e):
                     cands.append((path, ("mcall", t[1], t[2], [other])))
             elif kind == "shadow":
                 if k in ("any", "all"):
-                    # NOTE: re-using the name of an enclosing loop crashes _translate
-                    # (KeyError in the variable tracking of the `re` check; reported under
-                    # C01), so only `self` is re-defined here.
-                    cands.append((path, (k, "self", t[2], t[3])))
+                    # The loop variable is renamed consistently (binding and uses) to a name
+                    # of an outer scope: an argument / `self` / a global. NOTE: re-using the
+                    # name of an *enclosing loop* crashes _translate (KeyError in the variable
+                    # tracking of the `re` check; reported under C01), so that is not done.
+                    new = rng.choice(list(outer_names) + ["len", "Color", "is_ok", "Valid_names"])
+                    cands.append((path, (k, new, t[2], rename(t[3], t[1], new))))
         if cands:
             path, new = rng.choice(cands)
             return kind, replace_at(e, path, new)
@@ -905,6 +980,10 @@ class InstanceGen:
     def instances(self, cls, n):
         modes = ["none", "some", "empty"] + ["mixed"] * max(0, n - 3)
         return [self.obj(cls, m) for m in modes[:n]]
+
+    def arg_tuples(self, params, n):
+        modes = ["none", "some", "empty"] + ["mixed"] * max(0, n - 3)
+        return [[self.value(t, m) for _, t in params] for m in modes[:n]]
 
 
 # ----------------------------------------------------------------------------- Coq runner
